@@ -110,6 +110,7 @@ var genericScopes = map[string]genericScope{
 	"C14": {"R14.7", "", modset("esm", "market"), 60, 0},
 	"C19": {"R19.7", "", modset("rewards"), 90, 0},
 	"C17": {"R17.7", "", modset("bandoracle", "market"), 1, 0},
+	"C06": {"R06.9", "", modset("liquidity"), 100, 0},
 }
 
 func genericFor(id string, p *Prog, r *Report) {
